@@ -3,7 +3,7 @@ struct, partitions into row groups around page boundaries, page sizes, codecs.""
 import itertools
 import zoo as zoolib
 
-ZOOS = ["three", "flat", "person", "doc", "nested"]
+ZOOS = ["three", "flat", "person", "doc", "nested", "samename", "deep"]
 
 
 def enum_inner(n, lens, leaf):
@@ -128,6 +128,18 @@ def file_cases(chk, zs, thorough, per_zoo_cap=None, large=False):
         for codec in (0, 1, 2):
             out.append((z, 100000, codec, [("a", r) for r in rs] + [("w",), ("c",)], "large-page"))
             out.append((z, n // 2 + 1, codec, [("a", r) for r in rs] + [("w",), ("c",)], "large-page"))
+    # level streams ending at the 63-group boundary of the encoder (504 values) plus a partial group:
+    # every third record null / every third list empty so that no RLE run forms
+    z = zs.get("three") if large else None
+    if z is not None:
+        for n in (505, 509, 511, 1012):
+            rs = []
+            for i in range(n):
+                rs.append(("struct", [("leaf", zoolib.le(i, 8)),
+                                      ("nil",) if i % 3 == 0 else ("some", ("leaf", b"t%d" % i)),
+                                      ("list", [] if i % 3 == 1 else [("leaf", zoolib.le(i, 4))] * (1 + i % 2))]))
+            for codec in (0, 1, 2):
+                out.append((z, 100000, codec, [("a", r) for r in rs] + [("w",), ("c",)], "level-boundary"))
     # one very long string value
     z = zs.get("three") if large else None
     if z is not None:
